@@ -16,6 +16,27 @@ CHECKS = {
         text="TLC checks conservation / exactly-once / reporting-count invariants on every scenario of 2 units (3 in thorough) over all unit kinds, keys, policies, office kinds and request lists; every exported terminal state (a stratified sample in quick) is replayed through the real client for all three estimators and compared cell by cell; random elections of 4-12 units per state are recorded and replayed through the trace specification, which recomputes the ledger with the same operators.",
         note="Assumes unique feed ids and numeric non-missing feed values; bounded scopes as stated in the evidence; F8 (zero policy + state mismatch) is an open known finding.",
     ),
+    "C02": dict(
+        engine="ledger",
+        technique="TLA+ spec (Ledger.tla aggregation operators) model-checked by TLC with free unit outputs; recorded real runs validated by Trace_Ledger (TLC recomputes every group row from the returned unit table)",
+        design_ref="DESIGN.md §5 C02",
+        text="TLC checks LevelsAgree/GroupFloors for all 2-unit scenarios with free unit outputs; for real runs of all three estimators (random elections, 4-12 units per state, all request lists) the trace specification recomputes every aggregate row of every level from the returned unit table with the code-shaped join/sort steps and requires cell-by-cell, row-by-row equality (prediction for nonparametric and gaussian, both bounds for nonparametric, turnout and margin numerator for bootstrap).",
+        note="Unit-level model outputs are inputs; bootstrap identities in thousandths with slack (#units+1); no race calls in these runs.",
+    ),
+    "C03": dict(
+        engine="ledger",
+        technique="TLA+ spec (Ledger.tla GroupFloors) model-checked by TLC; recorded real runs validated by Trace_Ledger (ObsFloors: floors and finality on every unit and group row)",
+        design_ref="DESIGN.md §5 C03",
+        text="Every unit row and every group row of every table returned by real nonparametric/gaussian runs is checked against the floor and finality clauses inside the trace specification (bootstrap: finality of reporting/unexpected units); scenarios include partial counts above the regression prediction, fully reporting elections and groups without nonreporting units; witnesses require that floors were actually active.",
+        note="Floors are observed at the outputs (no hook on raw regression values); a removed floor is detected when a raw value falls below counted votes in a recorded run, which the witnesses show happens.",
+    ),
+    "C09": dict(
+        engine="ledger",
+        technique="TLA+ spec (MC_Eligibility.tla over Ledger.tla) exhaustively model-checked by TLC over boundary classes with exact rational arithmetic; every exported terminal state replayed into Estimandizer + CombinedDataHandler.get_units; recorded client runs with outlier models validated by Trace_Ledger",
+        design_ref="DESIGN.md §5 C09",
+        text="All 64,800 single-unit combinations of presence x feed turnout x baseline x percent-expected-vote x blocklist kind x policy x limits x threshold x estimand kind are enumerated by TLC (2-unit combinations in thorough), the eligibility rule is checked as an invariant in numbers, and every terminal state is replayed into the real get_units with frames, categories and derived columns compared exactly; client runs with outlier models on and unit counts around the threshold of 20 are validated by the trace spec.",
+        note="Outlier-model flags are oracle inputs observed by a run-time wrapper; numeric boundary replay is at component level (the client's own call sequence).",
+    ),
 }
 
 NOT_YET = "check not built yet in this round (planned, see DESIGN.md §5)"
